@@ -46,7 +46,15 @@ class Ctx:
         if which not in self._tables:
             from . import machine as mc
 
-            self._tables[which] = mc.tokenizer_tables(self.ast, which)
+            known = None
+            try:
+                R = self.ref(which + "_tokenizer.json")
+                known = set(R.get("helpers", {})) | set(R.get("charref", {})) | {k.split("::")[-1] for k in R.get("not_tabulated", {})}
+            except (OSError, ValueError):
+                pass
+            self._tables[which] = mc.tokenizer_tables(self.ast, which, known)
+            if self._tables[which].get("inlined_new"):
+                self.notes.append("%s tokenizer: private methods not in the reviewed reference were inlined at their call sites: %s" % (which, ", ".join(self._tables[which]["inlined_new"])))
         return self._tables[which]
 
     def ref(self, name):
